@@ -1,53 +1,63 @@
 import DswModel.Tie.NpLemmas
 import DswModel.Tie.ViewDefs
+import DswModel.Tie.GzViewsVert
+import DswModel.Tie.GzViewsTrim
+import DswModel.Tie.GzViewsLeaf
 /-!
 # Translation tie — the graph views of dsw/graphized.py
 `obtain_vertices`, `accessor_to_latter_map`, `remove_useless`, `latter_map_to_accessor`, `obtain_leaf_vertices`
 
 The generated definitions compute the model functions `obtainVertices`, `accessorToLatterMap`, `removeUseless`,
 `latterMapToAccessor`, `obtainLeafVertices` (dicts are insertion-ordered lists of distinct keys on both sides).
+
+The proofs are in `GzViewsLib` (dict / NumPy lemmas), `GzViewsVert` (`obtain_vertices`,
+`accessor_to_latter_map`), `GzViewsTrim` (`remove_useless`, `latter_map_to_accessor`), `GzViewsLeaf`
+(`obtain_leaf_vertices`).
 -/
 namespace Dsw.Tie
 open Dsw Dsw.Py
 
 theorem tie_obtain_vertices (a : Acc) (fuel : Nat) (ha : a.WF) :
     Gen.obtain_vertices fuel (accPV a) = .ok (idxArrPV (obtainVertices a)) := by
-  sorry
+  have _ := ha  -- (well-formedness is not needed: the expression only counts the entries different from `-1`)
+  exact GzV.obtain_vertices_tie a fuel
 
 theorem tie_accessor_to_latter_map (a : Acc) (fuel : Nat) (verbose : Bool) (ha : a.WF) :
-    Gen.accessor_to_latter_map fuel (accPV a) (.bool verbose) = .ok (lmapPV (accessorToLatterMap a)) := by
-  sorry
+    Gen.accessor_to_latter_map fuel (accPV a) (.bool verbose) = .ok (lmapPV (accessorToLatterMap a)) :=
+  GzV.accessor_to_latter_map_tie a fuel verbose ha
 
 theorem tie_remove_useless (m r : LMap) (t fuel : Nat) (verbose : Bool) (hm : LMap.KeysNodup m)
     (h : removeUseless m t = .ok r) (hf : m.arcs + 2 ≤ fuel) :
-    Gen.remove_useless fuel (lmapPV m) (.int (t : Int)) (.bool verbose) = .ok (lmapPV r) := by
-  sorry
+    Gen.remove_useless fuel (lmapPV m) (.int (t : Int)) (.bool verbose) = .ok (lmapPV r) :=
+  GzV.remove_useless_tie m r t fuel (.bool verbose) hm h hf
 
 theorem tie_latter_map_to_accessor_plain (m : LMap) (k fuel : Nat) (verbose : Bool) (hm : LMap.KeysNodup m)
     (hk : ∀ p ∈ m, p.1 < 4 ^ k) :
     Gen.latter_map_to_accessor fuel (lmapPV m) (.int (k : Int)) .none (.bool verbose) =
       (latterMapToAccessor m k Option.none).map accPV := by
-  sorry
+  have _ := hm  -- (distinct keys are not needed when the map is only read)
+  exact GzV.lma_plain_tie m k fuel (.bool verbose) hk
 
 theorem tie_latter_map_to_accessor_trim (m : LMap) (k t fuel : Nat) (verbose : Bool) (hm : LMap.KeysNodup m)
     (hk : ∀ p ∈ m, p.1 < 4 ^ k) (hf : m.arcs + 2 ≤ fuel) :
     Gen.latter_map_to_accessor fuel (lmapPV m) (.int (k : Int)) (.int (t : Int)) (.bool verbose) =
-      (latterMapToAccessor m k (some t)).map accPV := by
-  sorry
+      (latterMapToAccessor m k (some t)).map accPV :=
+  GzV.lma_trim_tie m k t fuel (.bool verbose) hm hk hf
 
 theorem tie_obtain_leaf_vertices_acc (a : Acc) (v depth fuel : Nat) (ha : a.WF) (hv : v < a.size) :
     Gen.obtain_leaf_vertices fuel (.int (v : Int)) (.int (depth : Int)) (accPV a) .none =
-      (obtainLeafVertices v depth (some a) Option.none).map idxArrPV := by
-  sorry
+      (obtainLeafVertices v depth (some a) Option.none).map idxArrPV :=
+  GzV.leaf_acc_tie a v depth fuel ha hv
 
 theorem tie_obtain_leaf_vertices_map (m : LMap) (v depth fuel : Nat) (hm : LMap.KeysNodup m) :
     Gen.obtain_leaf_vertices fuel (.int (v : Int)) (.int (depth : Int)) .none (lmapPV m) =
       (obtainLeafVertices v depth Option.none (some m)).map idxArrPV := by
-  sorry
+  have _ := hm  -- (distinct keys are not needed when the map is only read)
+  exact GzV.leaf_map_tie m v depth fuel
 
 theorem tie_obtain_leaf_vertices_bad (a : Acc) (m : LMap) (v depth fuel : Nat) :
     Gen.obtain_leaf_vertices fuel (.int (v : Int)) (.int (depth : Int)) (accPV a) (lmapPV m) = .error .valueError ∧
-    Gen.obtain_leaf_vertices fuel (.int (v : Int)) (.int (depth : Int)) .none .none = .error .valueError := by
-  sorry
+    Gen.obtain_leaf_vertices fuel (.int (v : Int)) (.int (depth : Int)) .none .none = .error .valueError :=
+  GzV.leaf_bad a m v depth fuel
 
 end Dsw.Tie
